@@ -12,7 +12,7 @@ inductive Key
   | idx (n : Nat)      -- array index
   | str (s : Nat)      -- string key that is not an array index (identified by a number)
   | sym (s : Nat)      -- symbol key
-  deriving Repr, DecidableEq, BEq
+  deriving Repr, DecidableEq
 
 def Key.isIdx : Key → Bool | .idx _ => true | _ => false
 def Key.isStr : Key → Bool | .str _ => true | _ => false
